@@ -55,6 +55,9 @@ def cases(tier):
             if tier == "quick" and pr == "single" and not (len(sel) == 3 or nn == 17):
                 continue
             yield {"nn": nn, "levels": sel, "footprint": fp, "analytic": an, "prec": pr}
+            if len(sel) >= 2 and pr == "double":
+                # the same request on a column with OTHER node heights (same domain, shape and level indices), in the same sweep
+                yield {"nn": nn, "levels": sel, "footprint": fp, "analytic": an, "prec": pr, "zscale": 1.37}
 
 
 def case_levels(case):
@@ -63,7 +66,9 @@ def case_levels(case):
     nn, sel = case["nn"], case["levels"]
     an, fp, pr = case["analytic"], case["footprint"], case["prec"]
     z, prof = column(nn, "const" if an else "var")
+    z = z * case.get("zscale", 1.0)
     nx, ny, dom = 6, 4, (60.0, 60.0)
+    sl.pollute(nx, ny, 10.0, 15.0)
     rng = core.case_rng(seed, "c10-source")
     q = rng.random((ny, nx))
     kw = dict(modes=(6, 4), halo=0.0, precision=pr, footprint=fp, analytic=an, meas_pt=(20.0, 15.0), srf_bg_conc=1.5)
